@@ -12,7 +12,7 @@ impl<'a> View for DocBuilder<'a, Arena<'a>> { type V = DocV; uninterp spec fn vi
 pub trait IntoDoc { spec fn docv(&self) -> DocV; }
 impl<'a> IntoDoc for ArenaDoc<'a> { open spec fn docv(&self) -> DocV { self@ } }
 impl<'b> IntoDoc for &'b str { open spec fn docv(&self) -> DocV { DocV::Text(self@) } }
-impl<'a> IntoDoc for Option<ArenaDoc<'a>> { open spec fn docv(&self) -> DocV { match self { Some(d) => d@, None => DocV::Nil } } }
+impl<'a> IntoDoc for Option<ArenaDoc<'a>> { open spec fn docv(&self) -> DocV { match self { Option::Some(d) => d@, Option::None => DocV::Nil } } }
 
 /// anything `text()` accepts (`Into<Cow<str>>` in the real crate)
 pub trait TextArg { spec fn chars(&self) -> Seq<char>; }
